@@ -2,13 +2,14 @@ package main
 
 import (
 	"fmt"
-	"os"
-	"sort"
 	"go/constant"
 	"go/token"
 	"go/types"
 	"math"
+	"os"
+	"sort"
 	"strings"
+	"sync"
 
 	"golang.org/x/tools/go/ssa"
 )
@@ -55,12 +56,12 @@ type symVar struct {
 }
 
 type Violation struct {
-	Label string            `json:"label"`
-	Kind  string            `json:"kind"` // assert, panic, deadlock
+	Label string                 `json:"label"`
+	Kind  string                 `json:"kind"` // assert, panic, deadlock
 	Model map[string]interface{} `json:"model"`
-	Trace []int             `json:"trace"`
-	Pos   string            `json:"pos"`
-	Msg   string            `json:"msg"`
+	Trace []int                  `json:"trace"`
+	Pos   string                 `json:"pos"`
+	Msg   string                 `json:"msg"`
 }
 
 type PathResult struct {
@@ -98,33 +99,33 @@ type Interp struct {
 	steps   int
 	depth   int
 	// goroutines
-	gs        []*GoR
-	cur       *GoR
-	preempts  int
+	gs         []*GoR
+	cur        *GoR
+	preempts   int
 	maxPreempt int
 	// environment
-	nowCount int
-	uuidN    int
+	nowCount        int
+	uuidN           int
 	wantCoverModels bool
-	initDone map[*ssa.Package]bool
-	inInit   bool
-	unwindDefault int
-	opt         *PathOpts
-	freshPick   bool
-	tag         string
-	syncClocks  map[interface{}]*vclock
-	raceMetas   map[interface{}]*raceMeta
-	raceSeen    map[string]bool
-	sleep       map[*GoR]bool
-	enumQueries int
-	curModel    Model
-	pcSet       map[int]bool
-	conc        *concState
-	nameCount   map[string]int
-	ctxCanceled Value
-	bgCtx       *ctxObj
-	lastNow     *Term
-	fnSeen      map[string]bool
+	initDone        map[*ssa.Package]bool
+	inInit          bool
+	unwindDefault   int
+	opt             *PathOpts
+	freshPick       bool
+	tag             string
+	syncClocks      map[interface{}]*vclock
+	raceMetas       map[interface{}]*raceMeta
+	raceSeen        map[string]bool
+	sleep           map[*GoR]bool
+	enumQueries     int
+	curModel        Model
+	pcSet           map[int]bool
+	conc            *concState
+	nameCount       map[string]int
+	ctxCanceled     Value
+	bgCtx           *ctxObj
+	lastNow         *Term
+	fnSeen          map[string]bool
 }
 
 func (ip *Interp) unsupported(msg string) {
@@ -693,8 +694,44 @@ func (ip *Interp) globalCell(g *ssa.Global) *Cell {
 	ip.globals[g] = c
 	if g.Pkg != nil && !ip.inInit {
 		ip.ensureInit(g.Pkg)
+		// audit: a global with an initialiser, read although its package's init is not run, holds its zero value here
+		if path := g.Pkg.Pkg.Path(); !ip.cfg.initAllowed(path) && !ip.cfg.isStubPkg(path) && initialisedInInit(g) {
+			ip.note("zero-valued global (package init not run): " + g.String())
+		}
 	}
 	return c
+}
+
+var (
+	initRefMu sync.Mutex
+	initRefs  = map[*ssa.Package]map[*ssa.Global]bool{}
+)
+
+// initialisedInInit reports whether the package's synthetic init function refers to g (i.e. g has an initialiser).
+func initialisedInInit(g *ssa.Global) bool {
+	initRefMu.Lock()
+	defer initRefMu.Unlock()
+	m, ok := initRefs[g.Pkg]
+	if !ok {
+		m = map[*ssa.Global]bool{}
+		if fn := g.Pkg.Func("init"); fn != nil {
+			var ops []*ssa.Value
+			for _, b := range fn.Blocks {
+				for _, ins := range b.Instrs {
+					ops = ins.Operands(ops[:0])
+					for _, o := range ops {
+						if o != nil {
+							if gl, isG := (*o).(*ssa.Global); isG {
+								m[gl] = true
+							}
+						}
+					}
+				}
+			}
+		}
+		initRefs[g.Pkg] = m
+	}
+	return m[g]
 }
 
 const maxDepth = 400
